@@ -3,7 +3,7 @@ import VerifModel.Model.ParseNumbers
 import VerifModel.Model.ArgLoop
 import VerifModel.Gen.OptionTable
 /- Driver ops for the command-line model (C13):
-     parse_numbers s=<string> <0|1>
+     parse_numbers s=<string> <0|1>      (parse_numbers_sub: same, run with a timeout by the harness)
      argv F=<valid input files, | separated> C=<name~tok|tok;name~tok…> A=<tok|tok|…>
      argvbad <kind> F=… C=… A=…          (same evaluation; the kind is for the oracle only)
 -/
@@ -55,6 +55,10 @@ def runArgv (f c a : String) : Option String :=
 def handle (args : List String) : Option String :=
   match args with
   | ["parse_numbers", s, d] =>
+    if hasPrefix "s=" s then
+      some (Res.show showNums (parseNumbers (dropN 2 s) (d == "1")))
+    else none
+  | ["parse_numbers_sub", s, d] =>       -- same function; the harness runs it in a subprocess with a timeout
     if hasPrefix "s=" s then
       some (Res.show showNums (parseNumbers (dropN 2 s) (d == "1")))
     else none
